@@ -116,7 +116,7 @@ func build(repo, bdir string) string {
 		die(2, "BUILD-ERROR instrumenter: %v", err)
 	}
 	_ = st
-	gomod := fmt.Sprintf("module github.com/cbeuw/Cloak/verifsim\n\ngo 1.26\n\nrequire github.com/cbeuw/Cloak v0.0.0\n\nreplace github.com/cbeuw/Cloak => %s\n", repo)
+	gomod := fmt.Sprintf("module github.com/cbeuw/Cloak/verifsim\n\ngo 1.26\n\nrequire github.com/cbeuw/Cloak v0.0.0\n\nrequire github.com/anishathalye/porcupine v1.3.0\n\nreplace github.com/cbeuw/Cloak => %s\n", repo)
 	os.WriteFile(filepath.Join(bdir, "go.mod"), []byte(gomod), 0o644)
 	sum, _ := os.ReadFile(filepath.Join(repo, "go.sum"))
 	extra, _ := os.ReadFile(filepath.Join(verifDir, "sim", "go.sum.extra"))
@@ -335,7 +335,7 @@ func cmdCheck(args []string) int {
 				}
 				job := map[string]any{"mode": "batch", "property": prop, "tier": *tier, "seed": seed, "worker": wi, "nworkers": nw,
 					"start": start, "max_runs": chunk, "deadline_unix_ms": deadline.UnixMilli(), "known": openSigs, "scale": *scale}
-				lines, err := runWorker(bin, bdir, job, time.Until(deadline)+10*time.Minute)
+				lines, err := runWorker(bin, bdir, job, time.Until(deadline)+4*time.Minute)
 				mu.Lock()
 				if err != nil {
 					harnessErrs = append(harnessErrs, err.Error())
@@ -566,7 +566,7 @@ func writeEvidence(prop, tier string, seed uint64, plan []planEntry, total int, 
 	os.WriteFile(filepath.Join(verifDir, "evidence", prop+".json"), b, 0o644)
 }
 
-const componentsNote = "real: internal/multiplex, internal/server, internal/server/usermanager (bbolt on disk), internal/client, internal/common, internal/ecdh, uTLS, gorilla/websocket, juju/ratelimit, net/http, logrus. stub: TCP/UDP (simnet), OS clock (synctest bubble), entropy (seeded), CDN edge, proxy applications, redirect web server, cmd/ck-client and cmd/ck-server main(), client.RouteUDP"
+const componentsNote = "real: internal/multiplex, internal/server, internal/server/usermanager (bbolt on disk), internal/client, internal/common, internal/ecdh, uTLS, gorilla/websocket, juju/ratelimit, net/http, logrus. stub: TCP/UDP (simnet), OS clock (synctest bubble), entropy (seeded), CDN edge, proxy applications, redirect web server, cmd/ck-client and cmd/ck-server main() (mirrored by the harness), the local UDP socket of client.RouteUDP (simnet packet socket behind a type seam). Instrumented (statement-level scheduling points): internal/multiplex, internal/server, internal/server/usermanager, internal/client, internal/common; everything else runs as atomic steps"
 
 func atoi(s string) int { n, _ := strconv.Atoi(s); return n }
 func atof(s string) float64 {
